@@ -10,7 +10,7 @@ import (
 func init() {
 	register(&Property{
 		ID: "C02",
-		Explanation: "Decides four structural necessary conditions of 'bundling preserves module-graph semantics', not the semantics: R4 every graph search that answers a provisional constant for nodes already in its visited set (the export-star dynamic-fallback search) receives a visited set created for that one traversal root; R1 every interop/runtime helper the linker, bundler, graph and printer refer to by name (__commonJS, __esm, __toESM, __toCommonJS, __export, __reExport, __copyProps, __require, __glob, __toBinary*, ...) is exported by the embedded runtime text in every feature configuration; R2 a module identity is parsed at most once per scan: the `go parseFile` spawn is dominated by the not-found edge of the visited-map lookup, and the visited entry and the pending counter are updated on every path from that edge to the spawn; R3 every config.Loader constant is dispatched by parseFile's loader switch (none falls through to 'do not know how to load'). R5 shared-ast-immutability: the C09/R2 frozen-AST analysis (no link-time store into AST memory that was not cloned for this link). R6 await-follows-callee-async: every EAwait the linker builds around a call of x.AST.WrapperRef is control dependent on x.Meta.IsAsyncOrHasAsyncDependency of the same x. R7 esm-wrapper-call-awaitable: every generated call of an ES-wrapped module's wrapper has an awaited variant for the same module in the same function. NOT covered: link-time import/export matching, wrapper and ordering semantics, the JS bodies of the helpers.",
+		Explanation: "Decides four structural necessary conditions of 'bundling preserves module-graph semantics', not the semantics: R4 every graph search that answers a provisional constant for nodes already in its visited set (the export-star dynamic-fallback search) receives a visited set created for that one traversal root; R1 every interop/runtime helper the linker, bundler, graph and printer refer to by name (__commonJS, __esm, __toESM, __toCommonJS, __export, __reExport, __copyProps, __require, __glob, __toBinary*, ...) is exported by the embedded runtime text in every feature configuration; R2 a module identity is parsed at most once per scan: the `go parseFile` spawn is dominated by the not-found edge of the visited-map lookup, and the visited entry and the pending counter are updated on every path from that edge to the spawn; R3 every config.Loader constant is dispatched by parseFile's loader switch (none falls through to 'do not know how to load'). R5 shared-ast-immutability: the C09/R2 frozen-AST analysis (no link-time store into AST memory that was not cloned for this link). R6 await-follows-callee-async: every EAwait the linker builds around a call of x.AST.WrapperRef is control dependent on x.Meta.IsAsyncOrHasAsyncDependency of the same x. R7 esm-wrapper-call-awaitable: every generated call of an ES-wrapped module's wrapper has an awaited variant for the same module in the same function. R8 require-of-tla-diagnosed-for-every-requirer: no condition controlling the require() diagnostic of reportInvalidTLA reads tlaCheck.parent of the file whose records are examined. NOT covered: link-time import/export matching, wrapper and ordering semantics, the JS bodies of the helpers.",
 		Run: func(p *Prog, tier string) []*RuleResult {
 			return []*RuleResult{
 				runtimeNamesRule(p, "C02/R1 runtime-names", map[string]bool{"linker": true, "bundler": true, "graph": true, "js_printer": true}, 10),
